@@ -13,7 +13,10 @@
     - [n_key]       [XmlNode::order()]: the key the evaluator sorts and de-duplicates by.  It is
                     reported exactly, so equal keys and zero keys of the pinned tree (processing
                     instructions D18, default attributes and namespace nodes D19) are representable
-    - [n_parent]    [parent_node()] ([None] for the document, attributes, namespace nodes)
+    - [n_parent]    [parent_node()] ([None] for the document and namespace nodes); for an attribute,
+                    whose [parent_node()] is [None] by DOM Level 1, its owner element
+                    ([XmlAttr::owner_element()], what the evaluator uses as the parent; [None] for a
+                    DTD-default attribute)
     - [n_children]  [child_nodes()]
     - [n_attrs]     [attributes()] (empty when [None])
     - [n_nss]       [in_scope_namespace()] of an element ([None] when it failed); namespace nodes
